@@ -576,3 +576,72 @@ pub fn has_excluded_placement(ledger: &[Tx]) -> bool {
     }
     false
 }
+
+/// C10 twin: rewrite everything dated before the chosen SPLIT/UNSPLIT line (index into the
+/// ledger) in post-split units — quantities (and event share counts) multiplied by the
+/// ratio, unit prices divided by it — and delete the line. None if some rescaled number is
+/// not exactly representable as a Decimal.
+pub fn rescale_twin_one(ledger: &[Tx], split_idx: usize) -> Option<Vec<Tx>> {
+    let sp = ledger.get(split_idx)?;
+    let ratio = match &sp.op {
+        Op::Split { r } => Rat::from_dec(*r),
+        Op::Unsplit { r } => Rat::from_dec(*r).recip(),
+        _ => return None,
+    };
+    let tk = sp.ticker.to_uppercase();
+    let mut out = vec![];
+    for (i, t) in ledger.iter().enumerate() {
+        if i == split_idx {
+            continue;
+        }
+        if t.ticker.to_uppercase() != tk || t.date > sp.date || (t.date == sp.date && !before_in_day(ledger, i, split_idx)) {
+            out.push(t.clone());
+            continue;
+        }
+        let mulq = |q: &Decimal| (Rat::from_dec(*q) * &ratio).to_dec_exact();
+        let divp = |m: &Money| (Rat::from_dec(m.a) / &ratio).to_dec_exact().map(|a| Money { a, c: m.c.clone() });
+        let op = match &t.op {
+            Op::Buy { q, p, f } => Op::Buy { q: mulq(q)?, p: divp(p)?, f: f.clone() },
+            Op::Sell { q, p, f } => Op::Sell { q: mulq(q)?, p: divp(p)?, f: f.clone() },
+            Op::CapRet { q, total, fees } => Op::CapRet { q: mulq(q)?, total: total.clone(), fees: fees.clone() },
+            Op::Acc { q, total, tax } => Op::Acc { q: mulq(q)?, total: total.clone(), tax: tax.clone() },
+            // an earlier split of the same security keeps its ratio
+            other => other.clone(),
+        };
+        out.push(Tx { date: t.date, ticker: t.ticker.clone(), op });
+    }
+    Some(out)
+}
+
+/// Same-date ordering only matters for lines of the excluded placements; for safety lines on
+/// the split's own date are treated as "before" only if they are splits (which commute).
+fn before_in_day(ledger: &[Tx], i: usize, split_idx: usize) -> bool {
+    let _ = split_idx;
+    !ledger[i].is_trade() && !ledger[i].is_event() && false
+}
+
+/// Remove every SPLIT/UNSPLIT by rewriting the ledger in final units.
+pub fn rescale_all(ledger: &[Tx]) -> Option<Vec<Tx>> {
+    let mut cur = ledger.to_vec();
+    loop {
+        // earliest split first
+        let mut best: Option<usize> = None;
+        for (i, t) in cur.iter().enumerate() {
+            if t.is_split() && best.map(|b| t.date < cur[b].date).unwrap_or(true) {
+                best = Some(i);
+            }
+        }
+        match best {
+            None => return Some(cur),
+            Some(i) => cur = rescale_twin_one(&cur, i)?,
+        }
+    }
+}
+
+/// true if some security has a SPLIT/UNSPLIT dated before (or on) a CAPRETURN/ACCUMULATION
+pub fn has_split_before_event(ledger: &[Tx]) -> bool {
+    ledger.iter().any(|e| {
+        e.is_event()
+            && ledger.iter().any(|s| s.is_split() && s.ticker.eq_ignore_ascii_case(&e.ticker) && s.date <= e.date)
+    })
+}
